@@ -13,14 +13,14 @@ HERE = os.path.dirname(os.path.abspath(__file__))
 
 FIX_COMMITS = [
     "b5ac1f3", "1edb1d6", "0e297eb", "e993b9c", "2be54ad", "7377f47", "ca6c519", "fab3d50", "1810991", "3594a47", "81ad9a8", "d90c18a",
-    "f793bf7", "e68f70f", "3631110", "b149875", "f116732", "f37d660", "23b89ea", "4d080bb", "a4b0e12", "d07d7fe",
+    "f793bf7", "e68f70f", "3631110", "b149875", "f116732", "f37d660", "23b89ea", "4d080bb", "a4b0e12", "d07d7fe", "023fcbc",
 ]
 
 HOOKS = {
     "guard": "PALLETS_JINJA_VERIF",
     "enable": "no hooks: the checks only read /repo/src/jinja2 (ast); the guard name is declared but unused",
     "baseline_off_cmd": "cd /repo && /venv/bin/python -m pytest -ra -q -p no:cacheprovider --timeout=900 --continue-on-collection-errors",
-    "source_commits": FIX_COMMITS,
+    "source_commits": [],  # no hook / instrumentation commits exist; repairs are 'fix:' commits (FIX_COMMITS)
     "add_only": True,
 }
 
@@ -28,8 +28,8 @@ NOTES = (
     "Static analysis only: every check parses /repo/src/jinja2 from the working tree on each run and decides "
     "structural clauses that are necessary conditions of the property; see DESIGN.md for what each check does "
     "and does not decide. Exit 2 + ANALYSIS-ERROR means the analyser lost an anchor; it is never a verdict. "
-    "hooks.source_commits lists the unguarded 'fix:' commits (genuine defect repairs, also recorded in "
-    "known_findings.json); there are no instrumentation hooks."
+    "There are no instrumentation hooks (hooks.source_commits is empty). Genuine defects repaired in /repo are "
+    "unguarded 'fix:' commits (" + " ".join(FIX_COMMITS) + "), each recorded as 'fixed:' in known_findings.json."
 )
 
 _NOTE = (
